@@ -1915,3 +1915,55 @@ func c15r19(rc *core.RC) {
 		rc.Unknown(fn+"/IsTaggedKey", fd.Pos(), "no assignment of IsTaggedKey found")
 	}
 }
+
+// ---- C15.R20 a tag decides a name only when exactly one candidate is tagged ----
+
+// Among the candidates for one member name at the shallowest depth encoding/json keeps the one tagged candidate if
+// there is exactly one, and drops the name otherwise. isTaggedKeyOnly answers that question for a list of candidates
+// in declaration order, of any length: it has to look at every candidate (a loop over the parameter) and count;
+// comparing the first two only is right for lists of two.
+func c15r20(rc *core.RC) {
+	p := rc.P
+	fd := p.Func("encoder", "Compiler.isTaggedKeyOnly")
+	key := "encoder.(*Compiler).isTaggedKeyOnly/every-candidate-counted"
+	if fd == nil || fd.Body == nil || fd.Type.Params.NumFields() < 1 {
+		rc.Unknown(key, token.NoPos, "function not found")
+		return
+	}
+	info := p.Info(fd)
+	rc.Touch(p.FuncName(fd))
+	param := info.Defs[fd.Type.Params.List[0].Names[0]]
+	ranged := false
+	var fixed []string
+	ast.Inspect(fd.Body, func(m ast.Node) bool {
+		switch x := m.(type) {
+		case *ast.RangeStmt:
+			if core.ObjOf(info, x.X) == param {
+				ranged = true
+			}
+		case *ast.ForStmt:
+			// an index loop up to len(param)
+			ast.Inspect(x.Cond, func(k ast.Node) bool {
+				if c, ok := k.(*ast.CallExpr); ok && core.IsBuiltin(info, c, "len") && len(c.Args) == 1 && core.ObjOf(info, c.Args[0]) == param {
+					ranged = true
+				}
+				return true
+			})
+		case *ast.IndexExpr:
+			if core.ObjOf(info, x.X) == param {
+				if _, isC := core.ConstInt(info, x.Index); isC {
+					fixed = append(fixed, core.Src(p.Fset, x))
+				}
+			}
+		}
+		return true
+	})
+	switch {
+	case ranged:
+		rc.OK(key, fd.Pos(), "the function loops over all candidates")
+	case len(fixed) > 0:
+		rc.Bad(key, fd.Pos(), "the function looks at %s only: with three or more candidates for a name (in declaration order, not sorted tagged-first) the answer is wrong: [untagged, untagged, tagged] drops the member, [untagged, tagged, tagged] writes it twice", strings.Join(fixed, ", "))
+	default:
+		rc.Unknown(key, fd.Pos(), "neither a loop over the candidates nor a fixed selection found")
+	}
+}
